@@ -5,6 +5,7 @@
 # SPDX-License-Identifier: MIT
 """Parse bumpver.toml, setup.cfg or pyproject.toml files."""
 
+import os
 import re
 import enum
 import typing as typ
@@ -342,8 +343,12 @@ def _compile_file_patterns(raw_cfg: RawConfig, is_new_pattern: bool) -> Patterns
     #
     # return dict(_file_pattern_items)
 
-    file_patterns: PatternsByFile = {}
+    file_patterns   : PatternsByFile     = {}
+    path_by_normpath: typ.Dict[str, str] = {}
     for path, patterns in _file_pattern_items:
+        # The same file may be configured with different spellings,
+        # e.g. "setup.cfg" (implicit) and "docs/../setup.cfg".
+        path = path_by_normpath.setdefault(os.path.normpath(path), path)
         if path in file_patterns:
             file_patterns[path].extend(patterns)
         else:
